@@ -51,13 +51,15 @@ V_FULL = [
     "null", "vu", "f1(1)", "fnull()", "f1(ii)", "f1(1.5)", 'f1("a")', "f1(vtab)", "f1(vr)", "f1(true)", 'f1(raw("a"))',
     # a variable that a forall left behind: null, and typed by the loop
     "fa",
+    # named constants (nodes of the program like literals)
+    "phi", "pi", "ee",
     # variables that exist (compiled) but were never assigned
     "uq", "us", "ut", "ur", "ub",
 ]
 V_QUICK = ["0", "-1", "256", "vimax", "vimin", "vni", "1.5", "vinf", "vnan", "vnd", '""', '"a"', '"12"', "vns", "vnul",
            'raw("a")', 'raw("12")', "vnb", "vb", "true", "vnt", "vc", "vnc", "vr", "vnr", "tup()", "vtab", "vtabs", "vtab2", "vtabr", "vntab", "vetab",
            "null", "vu", "fnull()", "int()", "num()", "str()", "raw()", "bool()", "tab()", "2", "vs", "uq", "us", "ut", "ur",
-           "f1(ii)", "f1(1.5)", 'f1("a")', "fa"]
+           "f1(ii)", "f1(1.5)", 'f1("a")', "fa", "phi", "pi"]
 V_SMALL = ["0", "-1", "vimax", "vimin", "vni", "1.5", "vnan", "vnd", '""', '"a"', "vns", "vnul", 'raw("a")', "vnb", "vnt", "vr", "vtab", "vntab",
            "null", "vu", "2", "vs", "uq", "us"]
 V_SIZE = ["null", "int()", "vni", "-1", "0", "1", "2", "65536", "vi", "1.5", '"a"', "vnd"]   # capped: allocation exhaustion is out of scope
